@@ -9,6 +9,7 @@ ops (one output line each):
   decode <mfs> <hex>                    -> ok <type> <flags> <sid> <consumed> <summary> | incomplete | err <code>
   body <type> <flags> <sid> <len> <hex> -> ok <remaining> <summary> | eof | err <code>
   settings_frame <flags> <hex>          -> ok <remaining> <summary> | eof | err <code>
+  stream <state> <frame kind>           -> handled | serr <code> | cerr <code>  (handle_header_state's table)
   first_settings <hex>                  -> the first SETTINGS payload of a connection, as h2.rs parses it
   gen_header <cap> <len> <type> <flags> <sid>
   gen_settings <cap> <v1> .. <v8>       (booleans as 0/1)
@@ -105,6 +106,24 @@ def stepLine (st : St) (line : String) : St × List String :=
     match flags.toNat?, hexToBytes hex with
     | some fl, some bs =>
       (st, [presStr (settingsFrame bs { len := bs.length, ftype := .settings, flags := fl, sid := 0 })])
+    | _, _ => (st, ["bad-op"])
+  | ["stream", sst, fk] =>
+    let st? : Option StreamSt := match sst with
+      | "idle_above" => some .idleAbove | "closed_below" => some .closedBelow
+      | "closed_end_stream" => some .closedEndStream | "closed_peer_rst" => some .closedPeerRst
+      | "refused" => some .refused | "half_closed_remote" => some .halfClosedRemote | "open" => some .open
+      | _ => none
+    let fk? : Option FrameKind := match fk with
+      | "data" => some .data | "headers" => some .headers | "window_update" => some .windowUpdate
+      | "rst_stream" => some .rstStream | "priority" => some .priority | "continuation" => some .continuation
+      | _ => none
+    match st?, fk? with
+    | some ss, some fk =>
+      let o := match headerVerdict (viewOf ss) fk with
+        | .handled => "handled"
+        | .streamError c => s!"serr {c}"
+        | .connError c => s!"cerr {c}"
+      (st, [o])
     | _, _ => (st, ["bad-op"])
   | ["first_settings", hex] =>
     match hexToBytes hex with
